@@ -447,7 +447,7 @@ class VM:
             self.steps += 1
             if self.steps > self.budget:
                 raise VMBudget("step budget exceeded")
-            if op not in ("for_stmt", "dowhile_stmt"):
+            if op not in ("for_stmt", "dowhile_stmt") and not (op == "while_stmt" and row.get("condition_prebody") is not None):
                 frame.trace.append(row.get("stmt_id"))
         h = self.handlers.get(op)
         if h is None:
@@ -646,7 +646,7 @@ class VM:
             if field == "length":
                 return len(recv)
             return None
-        if isinstance(recv, (list, str)) and field == "length" and self.family in ("js",):
+        if isinstance(recv, (list, str)) and field == "length" and (self.family in ("js",) or self.lang == "java"):
             return len(recv)
         raise VMOpaque(f"field {field!r} of {type(recv).__name__}")
 
@@ -1053,9 +1053,18 @@ class VM:
         cond = row.get("condition")
         body = row.get("body")
         pre = row.get("condition_prebody")
+        first = True
         while True:
             if pre is not None:
+                # the condition is computed by a prebody block that runs before every test (as in for_stmt)
                 self.exec_block(unit, pre, frame, scope, new_scope=False)
+                frame.trace.append(row.get("stmt_id"))
+            elif not first:
+                frame.trace.append(row.get("stmt_id"))
+            first = False
+            self.steps += 1
+            if self.steps > self.budget:
+                raise VMBudget("step budget exceeded")
             c = self.val(frame, scope, cond, row)
             if not self.truthy(c):
                 if row.get("else_body") is not None:
@@ -1074,10 +1083,6 @@ class VM:
                     pass
                 else:
                     return sig
-            self.steps += 1
-            if self.steps > self.budget:
-                raise VMBudget("step budget exceeded")
-            frame.trace.append(row.get("stmt_id"))
 
     def _exec_while_body_compensated(self, unit, row, frame, scope):
         rows = unit.blocks.get(_int(row.get("body")), [])
